@@ -61,6 +61,9 @@ std::string env_or(char const* k, std::string const& def)
 
 std::string root_dir() { return env_or("VERIF_ROOT", "/verif"); }
 std::string build_dir() { return env_or("VERIF_BUILD", root_dir() + "/build"); }
+// where evidence and replays go (redirected by the sensitivity tooling so that
+// runs against scratch copies never touch the committed evidence)
+std::string out_dir() { return env_or("VERIF_OUT", root_dir()); }
 std::string bin_for(std::string const& flav) { return build_dir() + "/" + flav + "/dst"; }
 
 struct Args
@@ -930,11 +933,12 @@ int cmd_check(Args const& a)
 			exit_code = 2;
 			continue;
 		}
-		mkdir((root_dir() + "/replays").c_str(), 0755);
+		mkdir(out_dir().c_str(), 0755);
+		mkdir((out_dir() + "/replays").c_str(), 0755);
 		std::string cls_file = v.cls;
 		for (auto& ch : cls_file) if (!isalnum((unsigned char)ch) && ch != '.' && ch != '-') ch = '_';
 		if (cls_file.size() > 80) cls_file.resize(80);
-		std::string const path = root_dir() + "/replays/" + b.prop + "-" + std::to_string(b.seed) + "-"
+		std::string const path = out_dir() + "/replays/" + b.prop + "-" + std::to_string(b.seed) + "-"
 			+ std::to_string(v.run) + "-" + cls_file + ".json";
 		J rep = J::obj();
 		rep.set("property", b.prop).set("class", v.cls).set("detail", r1.detail.empty() ? v.detail : r1.detail);
@@ -999,8 +1003,9 @@ int cmd_check(Args const& a)
 	ev.set("assumptions", as);
 	ev.set("wall_s", wall);
 	ev.set("violations", (long long)n_new);
-	mkdir((root_dir() + "/evidence").c_str(), 0755);
-	write_file(root_dir() + "/evidence/" + b.prop + ".json", ev.str(1) + "\n");
+	mkdir(out_dir().c_str(), 0755);
+	mkdir((out_dir() + "/evidence").c_str(), 0755);
+	write_file(out_dir() + "/evidence/" + b.prop + ".json", ev.str(1) + "\n");
 
 	std::printf("summary property=%s evaluations=%lld distinct_traces=%zu distinct_shapes=%zu nontrivial_shapes=%zu sim_time=%.1fs handlers=%llu wall=%.1fs violations=%d known=%zu exit=%d\n"
 		, b.prop.c_str(), (long long)b.evaluations, b.traces.size(), b.shapes.size(), b.nontrivial_shapes.size()
